@@ -40,6 +40,8 @@ func init() {
 		// exhaustive branching histories: one parent, three with/without derivations of it or of its derivatives
 		runs = append(runs, &TLCRun{Module: "MC_SetAlgebra", Cfg: tierPick(rc.Tier, "SetAlgebra_branchq.cfg", "SetAlgebra_brancht.cfg"), Timeout: 40 * time.Minute})
 		runs = append(runs, keyedRuns(rc, "num=4000", "num=150000")...)
+		// exhaustive branching ++ histories over dense zero-based strings, byte arrays and arrays
+		runs = append(runs, &TLCRun{Module: "Keyed", Cfg: tierPick(rc.Tier, "Keyed_branchq.cfg", "Keyed_brancht.cfg"), Timeout: 40 * time.Minute})
 		runTLCToPool(rep, rc, runs, &Pool{Handler: "multi-c03"})
 		return rep.Finish()
 	}
